@@ -139,6 +139,19 @@ def _map_source(F, f, d, op, depth=0, seen=None):
         c = callee(o["t"]) or callee_def(o["t"]) or ""
         if c == PK + "visible_modules":
             return [("visible", f.path, o["t"])]
+        # a helper of crate ide that answers with such a map (`visible_module_map(db, file)`): what it answers with
+        h = F.fns.get(c)
+        if h is not None and h.blocks and c.startswith(("ide::", "<ide::")) and depth < 3:
+            dh = FL.Defs(h)
+            ro = dh.origin(0)
+            cands = [ro] if ro.get("k") != "multi" else [{"k": "call", "t": dd[3], "bb": dd[0]} if dd[2] == "call" else dh.origin_rv(dd[3]["rv"], 0, dd[0], 0, ()) for dd in ro["defs"]]
+            out = []
+            for oc in cands:
+                if oc.get("k") == "call" and (callee(oc["t"]) or "") == PK + "visible_modules":
+                    out.append(("visible", h.path, oc["t"], (f.path, o["t"])))
+                else:
+                    out.append(("other:" + FL.short(c), f.path, o["t"]))
+            return out
         return [("other:" + FL.short(c), f.path, o["t"])]
     if o.get("k") == "arg" and depth < 3:
         n = o["n"]
@@ -180,7 +193,7 @@ def lookups_go_through_visible_modules(F, res, rule="T2"):
             d = d or FL.Defs(f)
             sites += 1
             src = _map_source(F, f, d, t["args"][0])
-            bad = [s for s in src if s[0] != "visible"]
+            bad = [s_ for s_ in src if s_[0] != "visible"]
             ordinal = sum(1 for b2, t2 in f.calls() if (callee(t2) or "") == "ide::base::ModuleMap::file_for_module_name" and (b2, t2["ln"]) < (b, t["ln"]))
             res.ob(rule, "lookup/%s/%d" % (FL.short(p), ordinal), "a module is looked up by name only in the map of modules visible to a package "
                    "(its own and those of its direct dependencies), never in a single root's map or a map built some other way",
@@ -188,7 +201,9 @@ def lookups_go_through_visible_modules(F, res, rule="T2"):
             # whose visibility: the package of the module whose import list is being resolved
             if p.startswith("ide::def::scope::") and not bad:
                 whose = []
-                for kind, up, vt in src:
+                for ent in src:
+                    kind, up, vt = ent[0], ent[1], ent[2]
+                    via = ent[3] if len(ent) > 3 else None
                     u = F.fns[up]
                     du = FL.Defs(u)
                     ro = du.origin_op(vt["args"][0])
@@ -196,9 +211,18 @@ def lookups_go_through_visible_modules(F, res, rule="T2"):
                     if ro.get("k") == "call" and (callee(ro["t"]) or "") == "ide::def::hir::Module::package":
                         mo = du.origin_op(ro["t"]["args"][0])
                         if mo.get("k") == "agg" and (mo["rv"].get("adt") or "").endswith("hir::Module"):
-                            fk = FL.origin_key(du.origin_op(mo["rv"]["ops"][0]))
-                            items = [FL.origin_key(du.origin_op(t3["args"][1])) for b3, t3 in u.calls()
-                                     if (callee(t3) or callee_def(t3) or "").endswith("module_items") and len(t3["args"]) >= 2]
+                            ido = du.origin_op(mo["rv"]["ops"][0])
+                            if via is not None and ido.get("k") == "arg":
+                                # the map was made by a helper for the file it was handed: the file is the caller's argument
+                                cu = F.fns[via[0]]
+                                dcu = FL.Defs(cu)
+                                fk = FL.origin_key(dcu.origin_op(via[1]["args"][ido["n"] - 1]))
+                                items = [FL.origin_key(dcu.origin_op(t3["args"][1])) for b3, t3 in cu.calls()
+                                         if (callee(t3) or callee_def(t3) or "").endswith("module_items") and len(t3["args"]) >= 2]
+                            else:
+                                fk = FL.origin_key(ido)
+                                items = [FL.origin_key(du.origin_op(t3["args"][1])) for b3, t3 in u.calls()
+                                         if (callee(t3) or callee_def(t3) or "").endswith("module_items") and len(t3["args"]) >= 2]
                             ok = fk is not None and fk in items
                     whose.append(ok)
                 res.ob(rule, "importer/%s/%d" % (FL.short(p), ordinal), "the visibility asked is that of the package of the importing module: "
